@@ -16,9 +16,60 @@ CHECKS = {
          "After every Decoder and Encoder call in generated scripts the offsets, StackDepth, every StackIndex and StackPointer are compared with an independent tokenizer; Pointer methods are checked against RFC 6901 on generated token lists; every rejected text is sent through the token, value, skip, Unmarshal and UnmarshalRead paths (several chunk sizes) and ByteOffset/JSONPointer must lie in the set the property allows, exactly for duplicate names; conversion failures planted at known paths in generated types must be reported with exactly that pointer and offset.",
          "trusted base: /verif/ref tokenizer and prefix analyzer; OutputOffset is taken to include the newline after a completed top-level value",
          "DESIGN.md §4 C16"),
+ "C02": ("exploration", "output-validity runtime monitor: every nil-error Marshal/MarshalWrite/MarshalEncode output is parsed by an independent reference parser under the effective options while adversarial user marshalers execute behaviour scripts; panic monitor",
+         "Generated Go types with adversarial user-defined marshalers (methods and functions that return arbitrary bytes, write 0/1/2 values, leave containers open, close the parent and reopen a sibling, emit duplicates or ill-formed UTF-8, return ErrUnsupported late, fail midway) are marshaled through 8 entry routes under random option sets; whenever the error is nil the delivered bytes must be exactly one JSON value valid under the effective options (reference parser), and inside a caller-held Encoder exactly one value must have been added at the entry depth. Library panics are violations.",
+         "trusted base: /verif/ref parser; the effective options are computed by the harness from the option list (last wins)",
+         "DESIGN.md §4 C02"),
+ "C03": ("exploration", "reference-model + route-agreement runtime monitor: untyped decoding by 14+ routes compared bit-exactly with an independent parse tree (math/big number rounding) after the input buffer was overwritten",
+         "Valid-by-construction texts, structure extremes and string-interning stress documents are decoded into any / map[string]any / []any / named interfaces / typed leaves through Unmarshal, UnmarshalRead (several reader schedules), UnmarshalDecode inside a stream, with and without the fast arshal_any path; each result must equal the reference tree exactly (float bits, non-nil empty containers, exact member sets) and all routes must agree.",
+         "trusted base: /verif/ref parser and math/big (self-tested against the toolchain's encoding/json)",
+         "DESIGN.md §4 C03"),
+ "C06": ("exploration", "reference push-down model of the token grammar + shadow encoder: accept/reject of every WriteToken/WriteValue call predicted, and real vs shadow encoder state compared after every accepted or rejected call (exhaustive short call sequences + random long ones)",
+         "Every call sequence over a 14-symbol alphabet of tokens and raw values up to length 4 (quick) / 5 (thorough), plus random sequences to length 40, runs under 8 option sets against an independent push-down model (accept iff grammar, unique string names after unescaping, balance, depth, UTF-8, raw value validity); a shadow encoder receives only the accepted calls and after every call bytes, OutputOffset, StackDepth, every StackIndex and StackPointer of both must be equal, so a rejected call provably had no observable effect on anything later; at depth 0 the bytes equal the reference formatter.",
+         "trusted base: /verif/ref grammar model, parser and whitespace formatter",
+         "DESIGN.md §4 C06"),
+ "C07": ("fault_enumeration", "differential runtime monitor with injected writer faults: concatenated writes of MarshalWrite/MarshalEncode/token encoding vs Marshal bytes across a size sweep over every flush threshold; enumerated writer fault schedules with prefix/conservation law; flush and retraction hooks prove the critical states were reached",
+         "Values are sized so the encoding sweeps every buffer/flush threshold with retractable omitempty members placed around each boundary; the bytes received by a bytes.Buffer and by an opaque writer must equal Marshal(v) (+ newline per Encoder value). Writer faults (accept <= n bytes then error, error at the k-th call) are enumerated for every k and n on short encodings and sampled otherwise: tokens stay accepted, OutputOffset equals the fault-free one, accepted++buffered is always a prefix of the fault-free output and nothing is lost or duplicated after a later successful flush.",
+         "trusted base: Marshal output as the fault-free reference (itself checked by C02/C04); hook counters (tag verif) for flushes and retractions after flush",
+         "DESIGN.md §4 C07"),
+ "C08": ("exploration", "planted-ambiguity runtime monitor: one duplicate (same, re-escaped, case-folded, numerically or textually equal key) or ill-formed UTF-8 sequence is planted at a known position of a clean text fitted to a generated type, ground truth from the effective target; default must reject, permissive option must equal the decoding of the reference-merged clean text",
+         "For generated types and fitted clean texts one ambiguity is planted at an object chosen among all objects; Unmarshal, UnmarshalRead and UnmarshalDecode must reject by default, the matching permissive option must accept and give the value of the ref-merged / U+FFFD-substituted clean text, the unrelated option must still reject, clean inputs are unaffected; 40% of targets are pre-populated. Marshal side: colliding fallback/map/text keys and ill-formed Go strings must error by default and never yield duplicate names with nil error.",
+         "trusted base: /verif/ref parser, merge and duplicate scan; the harness decides name equivalence from the effective target at the injection point",
+         "DESIGN.md §4 C08"),
+ "C11": ("exploration", "reference-model runtime monitor: independent minimal quoting/unquoting (RFC 8785, HTML/JS variants) compared byte-exactly with AppendQuote/AppendUnquote over exhaustive short strings and all BMP code points; path sweep scanning every output byte of every string-emitting path under the escape options",
+         "All 0/1/2-byte strings and all 3/4-byte strings over a 28-byte critical alphabet, every BMP code point with context, sampled supplementary planes and ill-formed families: AppendQuote must be the minimal form and fail iff ill-formed, unquoting must invert it, one U+FFFD per ill-formed byte. Each string is additionally sent through every listed output path (String token, raw token, WriteValue, Marshal of value / map key / field name / MarshalJSON / MarshalText / Value field / fallback name, Format, AppendFormat, v1.HTMLEscape) x escape options x PreserveRawStrings; every output byte is scanned for forbidden raw characters and every string must keep its meaning and minimal spelling.",
+         "trusted base: /verif/ref Quote/Unquote and the Unicode Table 3-7 UTF-8 checker (self-tested against strconv/encoding/json)",
+         "DESIGN.md §4 C11"),
+ "C12": ("exploration", "reference-model runtime monitor: reformatting outcome judged by the permitted-difference relation on independent parse trees across all 2^11 option subsets; unchanged-on-error and fixed-point checks; second application on read-only memory as a write detector",
+         "Generated and mutated texts (duplicates, ill-formed UTF-8, all escape spellings, boundary numbers, depth towers) are reformatted by Format/Compact/Indent/Canonicalize/AppendFormat (incl. dst overlapping src) under option lists walking all 2^11 subsets: success iff reference-valid under the two validity switches, value byte-identical on error, on success equal to the input tree modulo exactly the differences the options permit (whitespace, escape spelling, number canonical form, member order as multiset), layout equal to the reference formatter, and formatting the result again changes nothing (run on read-only memory so that any store faults).",
+         "trusted base: /verif/ref parser, ES6 number formatter, UTF-16 ordering and whitespace formatter",
+         "DESIGN.md §4 C12"),
+ "C13": ("exploration", "reference-model runtime monitor: byte equality with an independent RFC 8785 serializer plus class invariance over re-spellings (member order, whitespace, \\u escapes, exact-rational number forms)",
+         "Abstract values are written as 3-4 texts differing only in whitespace, member order, escape spelling and number spelling with the same exact rational; Canonicalize (and Format/AppendFormat with the three canonicalization options) of each must be byte-equal to the independent RFC 8785 serializer, equal across the class, and idempotent. Names are drawn so that UTF-8 and UTF-16 orders differ.",
+         "trusted base: /verif/ref Canonicalize (math/big rounding, own ES6 layout, utf16 ordering)",
+         "DESIGN.md §4 C13"),
+ "C14": ("exploration", "reference-model runtime monitor: JSON-level merge law Unmarshal(j2, Unmarshal(j1, zero)) == Unmarshal(serialize(ref.Merge(j1,j2)), zero) on chains of texts fitted to generated types, plus direct clause checks against deep snapshots",
+         "Chains of 2-4 texts fitted to generated types (structs, maps, pointers, slices, arrays, any, recursive/embedded/fallback types) with nulls, missing and unknown members are unmarshaled in sequence through Unmarshal, UnmarshalRead and UnmarshalDecode; every successful step is compared with the direct clauses (null zeroes, slices hold exactly the new elements, arrays zero-filled, untouched entries equal their snapshot) and with unmarshaling the reference-merged text into a fresh zero value.",
+         "trusted base: /verif/ref Merge/Serialize (self-tested against a map-level merge over the toolchain's encoding/json)",
+         "DESIGN.md §4 C14"),
+ "C17": ("exploration", "trace-specification runtime monitor: recorded call trace of instrumented user methods/functions compared with a dispatch model written from the Marshal/Unmarshal documentation over an exhaustive method-receiver matrix x positions x behaviour scripts; 16 different cache histories",
+         "81 marshal-side and 27 unmarshal-side declared types (each interface absent / value receiver / pointer receiver) at 22/16 positions (top level, fields of addressable and by-value structs, slice/array elements, map keys/values, behind any and pointers, nil pointers) with caller function lists: the recorded call trace and outcome class must equal the documented precedence, methods are never called on nil pointers, ErrUnsupported falls through only for the To/From forms, any user code not writing/reading exactly one value (incl. popping below its entry depth) yields an error, Options() inside the call reflects the caller's options and Reset panics. Each worker runs the matrix in a different order, so first-use caches see 16 histories.",
+         "trusted base: the dispatch model in cmd/c17/model.go, a reading of the package documentation",
+         "DESIGN.md §4 C17"),
+ "C19": ("exploration", "reference-model runtime monitor: last-wins map model of options vs the full GetOption vector for ALL sequences of <= 3 option atoms (exhaustive) and sampled longer ones in several nestings; irrelevance and per-call scoping observed on long-lived coders",
+         "Every public option constructor x argument class is an atom; all sequences of up to 3 atoms and random ones of 4-8, spelled flat / nested / via NewEncoder, NewDecoder and Reset, must give the GetOption vector (35 getters) of the last-wins model; equivalent spellings give identical Marshal/Unmarshal/Format/IsValid/coder results; options documented as ignored by an operation never change its result; options passed to MarshalEncode/UnmarshalDecode leave the coder's own GetOption vector and later behaviour unchanged after success, error and recovered user panic.",
+         "trusted base: the option model in cmd/c19/model.go (from the documentation) and /verif/ref formatter",
+         "DESIGN.md §4 C19"),
 }
 
-NOT_YET = {}
+NOT_YET = {
+ "C04": "monitor built (cmd/c04) but it still raises alarms on the unchanged tree that are being triaged (oracle vs library); not claimed until silent or the findings are recorded",
+ "C09": "monitor built (cmd/c09) but its divergence reports on the unchanged tree are still being triaged into fixes / known findings; not claimed until then",
+ "C10": "monitor built (cmd/c10) but two Token.Int/Uint alarms on the unchanged tree are being triaged; not claimed until then",
+ "C15": "monitor built (cmd/c15); the diamond-embedding finding F6 and a v1 fold-order divergence are not yet recorded as known findings; not claimed until then",
+ "C18": "monitor built (cmd/c18, race build) but too slow and not yet silent on the unchanged tree; not claimed until then",
+ "C20": "monitor built (cmd/c20); the coder-reuse finding F15 is not yet triaged; not claimed until then",
+}
 
 def main():
     props = [json.loads(l) for l in open('properties.jsonl')]
